@@ -376,15 +376,18 @@ class SessionManager:
         '''Refresh the cached header subscription responses to be for height,
         and record that as notified_height.
         '''
-        # A reorg could race and leave db_height lower, also while the header is being read
+        # A reorg could race and leave db_height lower, also while the header is being read.
+        # height is clamped to the DB height before each read, so a failed read means the DB
+        # was lowered whilst the worker thread was reading: read again, whatever the DB height
+        # is by now (it can be back up).  This cannot spin: the next read is within the DB
+        # unless the DB is lowered once more during it, and each round waits for a worker.
         while True:
             height = min(height, self.db.state.height)
             try:
                 raw = await self.raw_header(height)
                 break
             except RPCError:
-                if height <= self.db.state.height:
-                    raise
+                pass
         self.hsub_results = {'hex': raw.hex(), 'height': height}
         self.notified_height = height
 
